@@ -81,7 +81,8 @@ let run toks =
   | ["cmp"; a; b] ->
     let a = bytes_of_hex a and b = bytes_of_hex b in
     let r = compare_icase a b in
-    Printf.sprintf "%d%s" (int_of_z r) (if r = strcmp_sign (to_lower a) (to_lower b) then "" else " | MODEL-DIFFERS-FROM-SPEC")
+    Printf.sprintf "%d eq=%s lt=%s%s" (int_of_z r) (b2s (equal_icase a b)) (b2s (less_icase a b))
+      (if r = strcmp_sign (to_lower a) (to_lower b) then "" else " | MODEL-DIFFERS-FROM-SPEC")
   | ["era"; s; d] ->
     let s = bytes_of_hex s and d = bytes_of_hex d in
     Printf.sprintf "c=%s i=%s" (hex_of_bytes (erase_all s d)) (hex_of_bytes (erase_all_inplace s d))
